@@ -16,7 +16,7 @@ member ids: the invariant is kept (every configuration entry appended is `Link`e
 may change the configuration is a voter by its cached own entry (`Hs`) — the request's task is answered at once or attached
 to EXACTLY ONE configuration entry: `Rel t (ind task t)`. -/
 theorem onChangeConfig_one (s₀ : Node) (t : Nat) (ht : t ≠ 0) (x : Node) (task : Nat) (c : Config) (hV : V s₀ x)
-    (hn : (c.nodes.map (·.id)).Nodup) :
+    (hn : (c.nodes.map (·.id)).Nodup) (hs : Srt x.configs.latest → Srt c) :
     G s₀ x (x.onChangeConfig task c) ∧ (Hs x → TL.Rel t (TL.ind task t) x (x.onChangeConfig task c)) := by
   have rep : ∀ r, G s₀ x (x.reply task r) ∧ (Hs x → TL.Rel t (TL.ind task t) x (x.reply task r)) := fun r =>
     ⟨G.mk (hV.reply _ _) (Nat.le_of_eq (reply_fields x _ _).2.1.symm), fun _ => TL.rel_reply t ht x _ _⟩
@@ -45,7 +45,7 @@ theorem onChangeConfig_one (s₀ : Node) (t : Nat) (ht : t ≠ 0) (x : Node) (ta
                 have hst' : x.ldr.startIndex ≤ x.commitIndex := Nat.le_of_not_lt hst
                 have hsv : SameVoters c x.configs.latest := validated_sameVoters h1 h2
                 have hanch := validated_anchor hn h3
-                obtain ⟨⟨gc, g⟩, o⟩ := (block s₀ t ht (fuelFor 0)).2.2.1 x task c hV (Or.inr hanch) (fun _ => hsv)
+                obtain ⟨⟨gc, g⟩, o⟩ := (block s₀ t ht (fuelFor 0)).2.2.1 x task c hV (Or.inr hanch) (fun _ => ⟨hsv, hs⟩)
                 obtain ⟨m, hrCA, _⟩ := (TL.block t ht (fuelFor 0)).2.2.2.2.1 x task c
                 have hrDC := fun y => (TL.block t ht (fuelFor 1)).2.2.2.1 y task c
                 have hfail : Failed x1 →
@@ -67,7 +67,7 @@ theorem onChangeConfig_one (s₀ : Node) (t : Nat) (ht : t ≠ 0) (x : Node) (ta
                   have hcc : x1.canChangeConfig = x.canChangeConfig := canChange_k0 o1
                   by_cases hcan : Can x1
                   · obtain ⟨g2, _⟩ := (block s₀ t ht (fuelFor 1)).2.1 x1 task c c g1 hcan (Or.inl rfl)
-                      (by rw [(k0_eq o1).1]; exact hsv) hanch
+                      (by rw [(k0_eq o1).1]; exact hsv) (by rw [(k0_eq o1).1]; exact hs) hanch
                     exact ⟨g2.of_le (Nat.le_of_eq hl.symm), fun hs => (o3 hs).then (hrDC x1)⟩
                   · have hd : x1.ldr.transfer.active = true ∨ x1.ldr.node.voter = false := by
                       cases ha : x1.ldr.transfer.active with
@@ -414,13 +414,26 @@ theorem k0_initBody (x : Node) (n : CNode) : k0 (LC.initBody x n) = k0 x := by
 theorem failed_addReplication (x : Node) (n : CNode) (h : Failed x) : Failed (x.addReplication n) :=
   (q_addReplication x n).pan h
 
+/-- the part of the invariant that does not read the `Leader` record (it holds of a node in any role) -/
+structure PW (s₀ x : Node) : Prop where
+  li : x.configs.latest.index ≤ x.lastLogIndex
+  anch : AnchC x.configs.latest
+  nid : x.nid = s₀.nid
+  chain : x.panicked = none → LogChain s₀ x
+
+theorem V.pw {s₀ x : Node} (h : V s₀ x) : PW s₀ x := ⟨h.li, h.anch, h.nid, h.chain⟩
+
+theorem PW.v {s₀ x : Node} (h : PW s₀ x) (hc : LC.Cache x) : V s₀ x := ⟨hc, h.li, h.anch, h.nid, h.chain⟩
+
+theorem PW.refl (s : Node) (hli : s.configs.latest.index ≤ s.lastLogIndex) (hanch : AnchC s.configs.latest) : PW s s :=
+  ⟨hli, hanch, rfl, fun _ => LogChain.refl s⟩
+
 /-- **`leader.init`** (a node that has just won an election; nothing is assumed of its stale `Leader` record): the entries it
 appends — the no-op entry of its term and, on the single-voter fast path, whatever configuration changes the commit of that
-entry sets off — form a `Chain1` from the latest configuration. -/
-theorem leaderInit_G (s : Node) (hli : s.configs.latest.index ≤ s.lastLogIndex) (hanch : AnchC s.configs.latest) :
-    G s s s.leaderInit := by
+entry sets off — extend the chain. -/
+theorem leaderInit_G (s₀ s : Node) (hP : PW s₀ s) : G s₀ s s.leaderInit := by
   have hy : ∀ y : Node, y = (LC.initPre s).configs.latest.nodes.foldl LC.initBody (LC.initPre s) →
-      LC.Cache y → G s s (storeEntry (fuelFor 1) (checkConfigActions (fuelFor 0) y 0 y.configs.latest) [{ typ := etNop }]) := by
+      LC.Cache y → G s₀ s (storeEntry (fuelFor 1) (checkConfigActions (fuelFor 0) y 0 y.configs.latest) [{ typ := etNop }]) := by
     intro y hy hc
     have hk : k0 y = (s.configs, false, s.commitIndex, s.lastLogIndex + 1, s.lastLogIndex, s.configs.latest.numVoters,
         s.configs.latest.get s.nid, s.log.entries, s.nid) := by
@@ -452,11 +465,12 @@ theorem leaderInit_G (s : Node) (hli : s.configs.latest.index ≤ s.lastLogIndex
           · exact hz
           · exact failed_addReplication z b hz
       exact this _ _ h1
-    have hV : V s y := ⟨hc, by rw [a, e]; exact hli, by rw [a]; exact hanch, i,
-      fun _ => ⟨0, [], Nat.zero_le _, by rw [h]; simp, by rw [a]; exact .nil _⟩⟩
-    have g1 := ((block s 1 (by omega) (fuelFor 0)).2.2.1 y 0 _ hV hV.anch (J.refl y)).1
-    have g1' : G s s (checkConfigActions (fuelFor 0) y 0 y.configs.latest) := g1.of_le (Nat.le_of_eq e.symm)
-    exact G.trans g1' (fun hv => (block s 1 (by omega) (fuelFor 1)).1.1 _ _ hv (fun q hq => by
+    have hV : V s₀ y := ⟨hc, by rw [a, e]; exact hP.li, by rw [a]; exact hP.anch, i.trans hP.nid, fun hp => by
+      obtain ⟨k, ext, e0, e1, e2⟩ := hP.chain (hpan hp)
+      exact ⟨k, ext, e0, by rw [h]; exact e1, by rw [a]; exact e2⟩⟩
+    have g1 := ((block s₀ 1 (by omega) (fuelFor 0)).2.2.1 y 0 _ hV hV.anch (J.refl y)).1
+    have g1' : G s₀ s (checkConfigActions (fuelFor 0) y 0 y.configs.latest) := g1.of_le (Nat.le_of_eq e.symm)
+    exact G.trans g1' (fun hv => (block s₀ 1 (by omega) (fuelFor 1)).1.1 _ _ hv (fun q hq => by
         rw [List.mem_singleton.mp hq]; decide))
       (LC.cstoreEntry _ _ g1.1) ((failed_block (fuelFor 1)).1 _ _)
   exact hy _ rfl (LC.cache_initSync s)
